@@ -175,7 +175,7 @@ pub fn record(rng: &mut SmallRng, n_events: usize, out: &mut dyn Write) {
             if left == 0 {
                 break;
             }
-            let (ret, _) = str_pat_op!(op, s.as_str(), n.as_str());
+            let ret = catch(std::panic::AssertUnwindSafe(|| str_pat_op!(op, s.as_str(), n.as_str()).0));
             writeln!(out, "{}", json!({"ev": op, "s": js(&s), "n": js(&n), "ret": ret})).unwrap();
             left -= 1;
         }
@@ -183,7 +183,7 @@ pub fn record(rng: &mut SmallRng, n_events: usize, out: &mut dyn Write) {
             if left == 0 {
                 break;
             }
-            let ret = js(str_space_op(op, &w));
+            let ret = catch(std::panic::AssertUnwindSafe(|| js(str_space_op(op, &w))));
             writeln!(out, "{}", json!({"ev": op, "s": js(&w), "n": [], "ret": ret})).unwrap();
             left -= 1;
         }
